@@ -286,6 +286,11 @@ func vfTruncList(l []string, n int) []string {
 
 // vfModelResult evaluates the query in one ordering mode; tooBig reports an abandoned case.
 func vfModelResult(d *vfDB, root *vfNode, raw bool) (rel *vfRel, open int, tooBig bool) {
+	rel, open, _, tooBig = vfModelResult2(d, root, raw)
+	return
+}
+
+func vfModelResult2(d *vfDB, root *vfNode, raw bool) (rel *vfRel, open, packDisagree int, tooBig bool) {
 	m := vfNewModel(d, raw)
 	defer func() {
 		if e := recover(); e != nil {
@@ -297,7 +302,7 @@ func vfModelResult(d *vfDB, root *vfNode, raw bool) (rel *vfRel, open int, tooBi
 		}
 	}()
 	rel = m.eval(root)
-	return rel, m.ev.open, false
+	return rel, m.ev.open, m.ev.packDisagree, false
 }
 
 // vfPanicSite names an engine failure: normalized message @ innermost repository function
@@ -344,7 +349,7 @@ func vfPanicSite(p any, stack string) string {
 // (shared by the checks that run queries as part of something else).
 func vfEngineFailLabel(msg, stack string) string {
 	switch {
-	case strings.Contains(stack, "ProjectNone).hasRow") && strings.Contains(stack, "query.hashCols"):
+	case strings.Contains(stack, "ProjectNone).hasRow") && (strings.Contains(stack, "query.hashCols") || strings.Contains(stack, "(*Thread).PushCall")):
 		return "ProjectNone.hasRow-nil-thread"
 	case strings.Contains(stack, "(*SemiJoin).Select") && (strings.Contains(msg, "Sels.Get can't find") || strings.Contains(stack, "query.selEnd")):
 		return "semijoin-reverse-select-off-index"
